@@ -333,3 +333,86 @@ Proof.
   exists [[1; 2]; [0; 2]; [1; 0]; [4; 5]; [3; 5]; [4; 3]]%Z. split; [|split; [reflexivity|vm_compute; reflexivity]].
   intros row j Hr Hj. simpl in Hr. simpl. repeat (destruct Hr as [<-|Hr]; [simpl in Hj; lia|]). contradiction.
 Qed.
+
+(* ------------------------------------------------------------------ the graph built from the kNN lists is undirected *)
+Lemma dedupZ_spec : forall l seen x, In x (dedupZ l seen) <-> In x l /\ ~ In x seen.
+Proof.
+  induction l as [|y l IH]; intros seen x; simpl; [tauto|].
+  destruct (existsb (Z.eqb y) seen) eqn:E.
+  - rewrite IH. apply existsb_exists in E. destruct E as [z [Hz Ez]]. apply Z.eqb_eq in Ez. subst z.
+    split; [tauto|]. intros [[<-|H] Hn]; [contradiction|tauto].
+  - assert (Hy : ~ In y seen).
+    { intro Hc. assert (existsb (Z.eqb y) seen = true) by (apply existsb_exists; exists y; split; [exact Hc|apply Z.eqb_refl]). congruence. }
+    simpl. rewrite IH. simpl. split.
+    + intros [<-|[H1 H2]]; [tauto|]. split; [tauto|]. intro Hc. apply H2. right. exact Hc.
+    + intros [[<-|H1] H2]; [tauto|]. destruct (Z.eq_dec y x) as [->|Hne]; [tauto|]. right. split; [exact H1|]. intros [Hc|Hc]; tauto.
+Qed.
+
+Lemma dedupZ_nodup : forall l seen, NoDup (dedupZ l seen).
+Proof.
+  induction l as [|y l IH]; intros seen; simpl; [constructor|].
+  destruct (existsb (Z.eqb y) seen); [apply IH|]. constructor; [|apply IH].
+  intro Hc. apply dedupZ_spec in Hc. destruct Hc as [_ Hc]. apply Hc. left. reflexivity.
+Qed.
+
+Theorem adjacency_undirected es u w :
+  (In w (adj_of es u) <-> In (u, w) es \/ In (w, u) es) /\
+  (In w (adj_of es u) <-> In u (adj_of es w)) /\ NoDup (adj_of es u).
+Proof.
+  assert (G : forall a b, In b (adj_of es a) <-> In (a, b) es \/ In (b, a) es).
+  { intros a b. unfold adj_of. rewrite dedupZ_spec. rewrite in_flat_map. split.
+    - intros [[[p q] [He Hin]] _]. simpl in Hin. destruct (Z.eqb p a) eqn:E1.
+      + apply Z.eqb_eq in E1. subst p. destruct Hin as [<-|[]]. left. exact He.
+      + destruct (Z.eqb q a) eqn:E2; [|contradiction]. apply Z.eqb_eq in E2. subst q. destruct Hin as [<-|[]]. right. exact He.
+    - intros Hor. split; [|intros []]. destruct Hor as [He|He].
+      + exists (a, b). split; [exact He|]. simpl. rewrite Z.eqb_refl. left. reflexivity.
+      + exists (b, a). split; [exact He|]. simpl. destruct (Z.eqb b a) eqn:E1.
+        * apply Z.eqb_eq in E1. subst. left. reflexivity.
+        * rewrite Z.eqb_refl. left. reflexivity. }
+  split; [apply G|]. split; [rewrite (G u w), (G w u); tauto|apply dedupZ_nodup].
+Qed.
+
+(* ------------------------------------------------------------------ search_for_optimal_start keeps a start of minimal cost *)
+Section StartSearch.
+  Variable V : Type.
+  Variable veqb : V -> V -> bool.
+  Variable T : Type.
+  Variable ltb : T -> T -> bool.
+  Variable inf : T.
+  Variable tsum : list T -> T.
+  Variable nodes : list V.
+  Variable adj : V -> list V.
+  Variable d2 : V -> V -> T.
+  Variable fuel : nat.
+  Hypothesis ltb_trans : forall a b c, ltb a b = true -> ltb b c = true -> ltb a c = true.
+  Hypothesis ltb_irrefl : forall a, ltb a a = false.
+
+  Definition cost_of (i : V) : T :=
+    match path V veqb T ltb nodes adj d2 fuel i with Some p => cost V T tsum d2 p | None => inf end.
+
+  Lemma best_start_minimal : forall cands mind best done s first,
+    ((mind = inf /\ best = first) \/ mind = cost_of best) ->
+    (forall j, In j done -> ltb (cost_of j) mind = false) ->
+    best_start V veqb T ltb tsum nodes adj d2 fuel cands mind best = Some s ->
+    exists mind', ((mind' = inf /\ s = first) \/ mind' = cost_of s) /\
+                  (forall j, In j (done ++ cands) -> ltb (cost_of j) mind' = false).
+  Proof.
+    induction cands as [|i cs IH]; intros mind best done s first HI HJ H; simpl in H.
+    - inversion H; subst. exists mind. split; [exact HI|]. rewrite app_nil_r. exact HJ.
+    - destruct (path V veqb T ltb nodes adj d2 fuel i) as [p|] eqn:Ep; [|discriminate].
+      assert (Ec : cost_of i = cost V T tsum d2 p) by (unfold cost_of; rewrite Ep; reflexivity).
+      destruct (ltb (cost V T tsum d2 p) mind) eqn:El.
+      + assert (HI' : (cost V T tsum d2 p = inf /\ i = first) \/ cost V T tsum d2 p = cost_of i) by (right; symmetry; exact Ec).
+        assert (HJ' : forall j, In j (done ++ [i]) -> ltb (cost_of j) (cost V T tsum d2 p) = false).
+        { intros j Hj. apply in_app_or in Hj. destruct Hj as [Hj|[E|[]]].
+          - destruct (ltb (cost_of j) (cost V T tsum d2 p)) eqn:E2; [|reflexivity].
+            rewrite <- (HJ j Hj). symmetry. apply (ltb_trans _ _ _ E2 El).
+          - subst j. rewrite Ec. apply ltb_irrefl. }
+        destruct (IH _ _ _ s first HI' HJ' H) as [m' [A B]].
+        exists m'. split; [exact A|]. intros j Hj. apply B. rewrite <- app_assoc. exact Hj.
+      + assert (HJ' : forall j, In j (done ++ [i]) -> ltb (cost_of j) mind = false).
+        { intros j Hj. apply in_app_or in Hj. destruct Hj as [Hj|[E|[]]]; [apply HJ; exact Hj|]. subst j. rewrite Ec. exact El. }
+        destruct (IH _ _ _ s first HI HJ' H) as [m' [A B]].
+        exists m'. split; [exact A|]. intros j Hj. apply B. rewrite <- app_assoc. exact Hj.
+  Qed.
+End StartSearch.
